@@ -284,12 +284,14 @@ extern "C" void harness_rectilinear_kernels() {
 #ifndef HN
 #define HN 4
 #endif
+static Point64 g_vsnap[HN + 1];
 extern "C" void harness_trimhorz() {
   // vertex ring v[0..HN-1]; the edge under test runs v[0] -> v[1] (horizontal), v[1..] continue horizontally or not
   Vertex v[HN + 1];
   int64_t y = c61();
   for (int i = 0; i <= HN; ++i) { v[i].pt = Point64(c61(), (i <= 1 || nondet_bool()) ? y : c61()); v[i].flags = nondet_bool() ? VertexFlags::LocalMax : VertexFlags::Empty; }
   for (int i = 0; i <= HN; ++i) { v[i].next = &v[(i + 1) % (HN + 1)]; v[i].prev = &v[(i + HN) % (HN + 1)]; }
+  for (int i = 0; i <= HN; ++i) g_vsnap[i] = v[i].pt;
   ASSUME(v[0].pt.x != v[1].pt.x);
   ASSUME(v[HN].pt.y != y);                     // the run ends inside the ring
   LocalMinima lm(&v[0], PathType::Subject, false);
@@ -310,6 +312,8 @@ extern "C" void harness_trimhorz() {
     if ((v[k].flags & VertexFlags::LocalMax) != VertexFlags::Empty) break;
   }
   VA(e.vertex_top == &v[k]); VA(e.top == v[k].pt); VA(e.bot == v[0].pt);
+  // the sweep only reads the vertex rings (they may belong to a ReuseableDataContainer64 shared with other clippers: C12, C14)
+  for (int i = 0; i <= HN; ++i) { VA(v[i].next == &v[(i + 1) % (HN + 1)] && v[i].prev == &v[(i + HN) % (HN + 1)]); VA(v[i].pt == g_vsnap[i]); }
   if (e.top.x != e.bot.x) VA(e.top.x > e.bot.x ? IsHeadingRightHorz(e) : IsHeadingLeftHorz(e));
   verif_reach();
 }
